@@ -181,6 +181,27 @@ def pp_elements(junction=True, include_node_elements=True, include_branch_elemen
     return pp_elms
 
 
+def _junction_reference_mask(net, element, column):
+    """
+    Returns a boolean mask of the rows of net[element] in which the given column really holds a
+    junction index. This is relevant for columns that can refer to different element types, such as
+    the column "element" of valves, which holds a pipe index for valves of element type "pi".
+
+    :param net: pandapipes network
+    :type net: pandapipesNet
+    :param element: name of the element table
+    :type element: str
+    :param column: name of the column holding junction indices
+    :type column: str
+    :return: mask - boolean array with True for all rows that refer to a junction
+    :rtype: np.ndarray
+    """
+    if element in ("valve", "res_valve") and column == "element" and "valve" in net \
+            and "et" in net["valve"].columns:
+        return (net["valve"].loc[net[element].index, "et"] == "ju").values
+    return np.ones(len(net[element]), dtype=bool)
+
+
 def reindex_junctions(net, junction_lookup):
     """
     Changes the index of net.junction and considers the new junction indices in all other
@@ -261,7 +282,9 @@ def reindex_elements(net, element, lookup):
     if element == "junction":
         for element, value in element_junction_tuples(net=net):
             if element in net.keys():
-                net[element][value] = get_indices(net[element][value], lookup)
+                is_junction = _junction_reference_mask(net, element, value)
+                rows = net[element].index[is_junction]
+                net[element].loc[rows, value] = get_indices(net[element].loc[rows, value], lookup)
     elif element == "pipe":
         if "valve" in net:
             pipe_valves = net["valve"].loc[net["valve"]["et"] == "pi", "element"]
@@ -366,7 +389,8 @@ def fuse_junctions(net, j1, j2, drop=True):
     j2 = set(j2) - {j1} if isinstance(j2, Iterable) else [j2]
 
     for element, value in element_junction_tuples(net=net):
-        i = net[element][net[element][value].isin(j2)].index
+        is_junction = _junction_reference_mask(net, element, value)
+        i = net[element][net[element][value].isin(j2) & is_junction].index
         net[element].loc[i, value] = j1
 
     if drop:
@@ -405,8 +429,15 @@ def select_subnet(net, junctions, include_results=False, keep_everything_else=Fa
     comp_junc_rows = {tbl: [jr for el, jr in comp_tuples if el == tbl] for tbl in
                       set([v[0] for v in comp_tuples])}
     for comp_tbl, junc_rows in comp_junc_rows.items():
-        isin_all = np.all([net[comp_tbl][jr].isin(junctions) for jr in junc_rows], axis=0)
+        # columns that do not refer to a junction in a row (e.g. pipe valves) are checked below
+        isin_all = np.all([net[comp_tbl][jr].isin(junctions) | ~_junction_reference_mask(net, comp_tbl, jr)
+                           for jr in junc_rows], axis=0)
         p2[comp_tbl] = net[comp_tbl][isin_all]
+    if "valve" in p2 and "et" in p2["valve"].columns:
+        # valves attached to pipes are kept only together with their pipe
+        pipe_valves = p2["valve"]["et"] == "pi"
+        kept_pipes = p2["pipe"].index if "pipe" in p2 else []
+        p2["valve"] = p2["valve"][~pipe_valves | p2["valve"]["element"].isin(kept_pipes)]
 
     if include_results:
         for table in net.keys():
@@ -480,8 +511,9 @@ def drop_elements_at_junctions(net, junctions, node_elements=True, branch_elemen
     """
     for element, column in element_junction_tuples(node_elements, branch_elements,
                                                    include_res_elements=False, net=net):
-        if any(net[element][column].isin(junctions)):
-            eid = net[element][net[element][column].isin(junctions)].index
+        at_junctions = net[element][column].isin(junctions) & _junction_reference_mask(net, element, column)
+        if any(at_junctions):
+            eid = net[element][at_junctions].index
             if element == 'pipe':
                 drop_pipes(net, eid)
             # elif element == 'trafo' or element == 'trafo3w':
@@ -514,6 +546,13 @@ def drop_pipes(net, pipes):
     if "res_pipe" in net.keys():
         res_pipes = net.res_pipe.index.intersection(pipes)
         net["res_pipe"].drop(res_pipes, inplace=True)
+    if "valve" in net and "et" in net["valve"].columns:
+        # valves that are attached to the dropped pipes cannot exist without them
+        pipe_valves = net["valve"].index[(net["valve"]["et"] == "pi") & net["valve"]["element"].isin(pipes)]
+        if len(pipe_valves):
+            net["valve"].drop(pipe_valves, inplace=True)
+            if "res_valve" in net.keys() and isinstance(net["res_valve"], pd.DataFrame):
+                net["res_valve"].drop(net["res_valve"].index.intersection(pipe_valves), inplace=True)
     logger.info("dropped %d pipes" % len(list(pipes)))
 
 
